@@ -11,5 +11,6 @@ func init() {
 		p := c.Pkg("clone")
 		Rel(c, "R-REL", []*packages.Package{p}, anyDecl, instanceParam, 200)
 		Sanitize(c, "R-SANITIZE", p)
+		CloneFresh(c, "R-FRESH", p, 10)
 	})
 }
